@@ -293,7 +293,7 @@ pub fn run_c05(ctx: &Ctx, rep: &mut Report) {
         rep.notes.push("no non-decimal formats in this configuration".into());
         return;
     }
-    let per = ctx.n(10_000, 400_000);
+    let per = ctx.n(10_000, 150_000);
     run_prop_jobs(
         rep,
         ctx,
@@ -353,7 +353,7 @@ pub fn run_c19(ctx: &Ctx, rep: &mut Report) {
         .into();
     rep.assumptions = vec!["'decided by the exact fast path' is computed by the harness as a subset of the documented fast-path condition".into()];
     let js = jobs(|_, _| true);
-    let per = ctx.n(if js.len() > 10 { 10_000 } else { 240_000 }, 400_000);
+    let per = ctx.n(if js.len() > 10 { 10_000 } else { 240_000 }, 150_000);
     run_prop_jobs(
         rep,
         ctx,
